@@ -13,7 +13,10 @@ from typing import Dict, List, Optional, Tuple
 POSITIONS = ["center", "left", "right", "inner", "outer"]
 FACES = ["left", "right", "inner", "outer"]
 SHIFTS = [("center", p) for p in FACES] + [(p, "center") for p in FACES]
-NS = (2, 3, 4, 5, 6)
+import os as _os
+
+# cell counts on which every table is enumerated (the thorough tier widens the range)
+NS = tuple(range(2, 12)) if _os.environ.get("SA_THOROUGH") else (2, 3, 4, 5, 6)
 
 
 def points(pos: str, N: int) -> List[F]:
